@@ -67,9 +67,9 @@ Theorem C14_build_short_list : forall tb ld id tail,
 Proof. exact build_short_list. Qed.
 Print Assumptions C14_build_short_list.
 
-(* ... a delayed replication descriptor without a factor lets StopIteration escape *)
+(* ... a delayed replication descriptor without a factor is refused with the library error *)
 Theorem C14_build_delayed_at_end : forall tb ld id,
-  is_replication id = true -> (id mod 1000 =? 0)%N = true -> build tb ld [id] = Err EStopIter.
+  is_replication id = true -> (id mod 1000 =? 0)%N = true -> build tb ld [id] = Err ELib.
 Proof. exact build_delayed_at_end. Qed.
 Print Assumptions C14_build_delayed_at_end.
 
